@@ -54,7 +54,7 @@ def same(A, label, before, now, out):
             out.append((label + '-leaf', A.bool(now is old) if A.symbolic and isinstance(old, symx.Sym) else A.eq(now, old)))
 
 
-def h_dt_data(f, N, mode, period=None, txt=None):
+def h_dt_data(f, N, mode, period=None, txt=None, cols='list'):
     f = T(f)
     vs = sorted(variables(f))
 
@@ -64,12 +64,15 @@ def h_dt_data(f, N, mode, period=None, txt=None):
         w = dt.trace(env, vs, N, ext=False)
         if mode == 'offline':
             s = dt.make_spec('offline~', 'out = ' + (txt or text(f)), vs, period=period, f=f)
-            data = {'time': list(range(N))}
+            mkcol = tuple if cols == 'tuple' else list          # columns given as another sequence type stay the caller's objects too
+            data = {'time': mkcol(range(N))}
             for v in vs:
-                data[v] = list(w[v])
+                data[v] = mkcol(w[v])
             before = snap(data)
+            ids = {k: id(c) for k, c in data.items()}
             r1 = s.evaluate(data)
             same(A, 'data', before, data, res)
+            res.append(('data-same-objects', A.bool(all(id(data[k]) == i for k, i in ids.items()))))
             r1v = [p[1] for p in r1]
             r2 = s.evaluate(data)
             same(A, 'data2', before, data, res)
@@ -267,6 +270,10 @@ def obligations(tier, rng):
                            (('eventually_t', X, 0, 2), 'eventually[0,2000ms](x)', None), (('since_t', X, Y, 1, 2), '(x) since[1s,2000ms] (y)', None),
                            (('until_t', X, Y, 0, 2), '(x) until[0,1](y)', (500, 'ms', 0.1)), (('historically_t', X, 1, 3), 'historically[1000ms,3s](x)', None)]:
         out.append(ob('C11', 'dt_data', 'repeat-units/%s/p=%s' % (txt, period), f=f, N=5, mode='offline', txt=txt, period=list(period) if period else None))
+    # columns that are tuples (any sequence the evaluator accepts): still the caller's objects afterwards
+    for f in [('and', X, Y), ('geq', X, Y), ('not', X), ('once', X), ('historically', X), ('always', X), ('eventually', X), ('since', X, Y), ('until', X, Y),
+              ('sub', X, Y), ('implies', X, Y), ('abs', X), ('prev', X), ('eventually_t', X, 0, 1), ('always_t', X, 0, 1)]:
+        out.append(ob('C11', 'dt_data', 'data/dt-offline-tuples/%s/N=4' % text(f), f=f, N=4, mode='offline', cols='tuple'))
     from .. import pool
     for g in pool.ALL:
         out.append(ob('C11', 'dt_data', 'repeat-pool/dt-offline/%s/P=%s/unit=%s' % (g[1], g[3] or '-', g[4] or '-'), f=g, N=5, mode='offline'))
